@@ -75,8 +75,12 @@ CHECKS['C20'] = (OTHER, 'bounded call-history symbolic execution of the real Pan
 _SHELL = ('complete-shell (ConeCyl) kernels are not encoded: the 47 conecyl extension modules are built around cimport-ed integrand callbacks, a function-pointer integrator, '
           'C structs and trigonometric bases, which the de-Cythoniser/oracle pair built here (polynomial Bardell bases, no cimport/struct/callback support, no exact trigonometric integrator) '
           'cannot execute; nothing about this property is decided, so nothing is claimed (DESIGN.md section 9.2)')
+CHECKS['C18'] = (OTHER, 'symbolic execution of the real ConeCyl object (_rebuild, exclude_dofs_matrix, calc_full_c, calc_fext, uvw) over de-Cythonised clpt commons kernels with trigonometric values as solver-canonicalised atoms; z3 qfnra-nlsat per entry; exact-rational replay',
+    'Bounded symbolic verification for the classical Donnell shell models bc1-bc4: derived geometry consistent and idempotent for every admissible input pair (cone and cylinder), partition/re-insertion of prescribed amplitudes is the identity for every admitted subset, calc_full_c inverts it for any load factor, load vector of point forces / torque / axial force = virtual work against the package own uvw, prescribed-displacement right-hand-side terms.',
+    'Pressure and harmonic edge-load closed forms, Sanders/FSDT/iso models and the reduced solve are outside (stated in evidence); trig atoms per argument class with S^2+C^2=1.',
+    'DESIGN.md section 9.2 / 4 C18')
 NA = {
-    'C16': _SHELL, 'C17': _SHELL, 'C18': _SHELL,
+    'C16': _SHELL, 'C17': _SHELL,
     'C15': 'eigenvalue monotonicity/convergence for pencils of size 48..768 is not a bounded first-order query any installed solver can decide; the algebraic ingredients (exact Hessians, exact tables, nestedness) are decided under C02-C04 and C10 (DESIGN.md section 5)',
 }
 man = {
